@@ -35,6 +35,7 @@ CfgDefault == [ maxId      |-> 3,       \* session ids wrap after maxId (65535 i
                 seeReboot  |-> FALSE,   \* reboot_detected calls on the three components are observable
                 timerPhase |-> FALSE,   \* environment inputs may also run among the due timers of an iteration
                 watch0     |-> <<>>,    \* initial listener registrations
+                wkeys0     |-> <<>>,    \* order in which the initial filters were first watched (find entries keep it)
                 \* announcer (someip.sd.Timings; integer ticks)
                 initMin |-> 0, initMax |-> 0, reps |-> 0, base |-> 1, cyclic |-> 4, annTTL |-> 12,
                 collect |-> 0, rrMin |-> 0, rrMax |-> 0,
@@ -44,6 +45,9 @@ CfgDefault == [ maxId      |-> 3,       \* session ids wrap after maxId (65535 i
                 findMatch |-> <<>>,    \* [find filter -> set of service names it matches]
                 rejectCtr |-> {},      \* the server-side listener rejects subscriptions with these counters
                 stopTwice |-> FALSE,   \* the environment may stop an already stopped announcer
+                subTTL |-> 12, refresh |-> 4, \* SUBSCRIBE_TTL, SUBSCRIBE_REFRESH_INTERVAL (0 = None)
+                egs |-> <<>>,          \* [eventgroup name -> [ep |-> name of its local endpoint option]]
+                findTTL |-> 3,
                 peers |-> <<>> ]
 
 \* all deviation switches off = the intended design; AsShipped = the pinned commit 06eaa50
@@ -62,7 +66,9 @@ AllOff == [ DeferExpiryNotify   |-> FALSE,  \* D1  TimedStore._expired defers it
             NonCyclicKeepsAnswering |-> FALSE, \* D5  stop() never resets _can_answer_offers
             StopTwiceRaises     |-> FALSE,  \* D6  stopping a stopped instance raises RuntimeError
             CancelCollectorsOnStop |-> FALSE, \* spec mutant: stop() cancels the collectors' timers but leaves them open
-            AckBeforeListener   |-> FALSE ] \* spec mutant: a rejected subscription is acknowledged positively
+            AckBeforeListener   |-> FALSE,  \* spec mutant: a rejected subscription is acknowledged positively
+            FindIgnoresFound    |-> FALSE,  \* spec mutant: find rounds list every watched filter, found or not
+            StopSubNotDeferred  |-> FALSE ] \* spec mutant: StopSubscribe sent at once, overtaking a queued Subscribe
 AsShipped == [AllOff EXCEPT !.DeferExpiryNotify = TRUE, !.DeferStopAllNotify = TRUE, !.DeferRebootFanout = TRUE,
                             !.IgnoreWhenUnwatched = TRUE, !.DeferWatchReplay = TRUE, !.DeferHandleOffer = TRUE,
                             !.FindAnswerIgnoresStop = TRUE, !.NonCyclicKeepsAnswering = TRUE, !.StopTwiceRaises = TRUE]
@@ -124,16 +130,19 @@ Hears(s, l, svc) == \E f \in s.watch[l] : svc \in Match[f]
 Listeners(s, svc) == {l \in DOMAIN s.watch : Hears(s, l, svc)}
 \* is_watching_service: some watch-all listener, or a filter that was EVER watched matches
 \* (stop_watch_service leaves the filter key behind with an empty listener set)
-IsWatching(s, svc) == (\E l \in DOMAIN s.watch : "ALL" \in s.watch[l]) \/ (\E f \in s.wkeys : svc \in Match[f])
+IsWatching(s, svc) == (\E l \in DOMAIN s.watch : "ALL" \in s.watch[l]) \/ (\E f \in Range(s.wkeys) : svc \in Match[f])
 
 RECURSIVE NotifySeq(_, _, _, _, _)
 NotifySeq(s, q, what, svc, src) ==
   IF q = <<>> THEN s
-  ELSE NotifySeq(Out(s, [k |-> "out", op |-> what, lst |-> Head(q), svc |-> svc, src |-> src]),
+  ELSE NotifySeq(Out(s, [k |-> "out", op |-> what, lst |-> Head(q)[1], svc |-> svc, src |-> src]),
                  Tail(q), what, svc, src)
-\* _notify_service_offered / _notify_service_stopped: synchronous fan-out to the listeners
-\* registered NOW (order = dict / set order: canonical here, compared as a bag by SDTrace)
-NotifyFound(s, what, svc, src) == NotifySeq(s, SetToSeq(Listeners(s, svc)), what, svc, src)
+\* _notify_service_offered / _notify_service_stopped: synchronous fan-out, once per (matching filter,
+\* listener registered under it) -- a listener registered under two matching filters is told twice --
+\* to the listeners registered NOW (order = dict / set order: canonical here, compared as a bag by SDTrace)
+NotifyFound(s, what, svc, src) ==
+  NotifySeq(s, SetToSeq({p \in (DOMAIN s.watch) \X ((DOMAIN Match) \cup {"ALL"}) : p[2] \in s.watch[p[1]] /\ svc \in Match[p[2]]}),
+            what, svc, src)
 
 -----------------------------------------------------------------------------
 (* ------------------------- TimedStore (C09) ------------------------------ *)
@@ -212,7 +221,7 @@ ReplaySeq(s, q, what, l, defer) ==
        IN ReplaySeq(IF defer THEN CallSoon(s, [kind |-> "emit", e |-> e]) ELSE Out(s, e),
                     Tail(q), what, l, defer)
 Watch(s, l, f) ==
-  LET s1 == [s EXCEPT !.watch[l] = @ \cup {f}, !.wkeys = IF f = "ALL" THEN @ ELSE @ \cup {f}]
+  LET s1 == [s EXCEPT !.watch[l] = @ \cup {f}, !.wkeys = IF f = "ALL" \/ f \in Range(@) THEN @ ELSE Append(@, f)]   \* dict keys keep insertion order
   IN ReplaySeq(s1, SetToSeq({k \in s.store["found"] : k[2] \in Match[f]}), "offered", l, Sw.DeferWatchReplay)
 Unwatch(s, l, f) ==
   LET s1 == [s EXCEPT !.watch[l] = @ \ {f}]
@@ -287,7 +296,7 @@ InstStart(s, i) ==
   IF s.inst[i].task # 0 THEN Exc(s, "task already started")
   ELSE LET tk == NewTaskId(s) IN
        CallSoon([s EXCEPT !.inst[i] = [task |-> tk, can |-> FALSE],
-                          !.tasks = Put(@, tk, [st |-> "created", pc |-> 0, i |-> 0, must |-> FALSE, inst |-> i])],
+                          !.tasks = Put(@, tk, [st |-> "created", pc |-> 0, i |-> 0, must |-> FALSE, inst |-> i, kind |-> "offer"])],
                 [kind |-> "step", tk |-> tk])
 InstStopBody(s, i) ==
   LET s1 == CancelTask(s, s.inst[i].task)
@@ -361,6 +370,77 @@ RECURSIVE RebootAnnSeq(_, _, _)
 RebootAnnSeq(s, q, src) == IF q = <<>> THEN s ELSE RebootAnnSeq(TSStopAddr(s, Head(q), src), Tail(q), src)
 
 -----------------------------------------------------------------------------
+(* ------------------- ServiceSubscriber (C14) and the find task (C13) ------ *)
+\* s.sub = [alive, task, list]   list: Seq of <<eventgroup, server>> in request order (subscribeentries)
+SubEntry(g, ttl) == [ty |-> "sub", g |-> g, ttl |-> ttl, eps |-> <<Cfg.egs[g].ep>>]
+\* _group_entries: one message per server (first-appearance order), eventgroups in list order
+RECURSIVE Servers(_)
+Servers(l) == IF l = <<>> THEN <<>>
+              ELSE LET r == Servers(SubSeq(l, 1, Len(l) - 1))  x == l[Len(l)][2]
+                   IN IF \E i \in DOMAIN r : r[i] = x THEN r ELSE Append(r, x)
+GroupOf(l, srv) == LET q == SelectSeq(l, LAMBDA p : p[2] = srv) IN [i \in DOMAIN q |-> q[i][1]]
+SendSubs(s, ttl, srv, gs) == SendSD(s, srv, [i \in DOMAIN gs |-> SubEntry(gs[i], ttl)])
+RECURSIVE SendAllSubs(_, _, _)
+SendAllSubs(s, ttl, srvs) ==
+  IF srvs = <<>> THEN s ELSE SendAllSubs(SendSubs(s, ttl, Head(srvs), GroupOf(s.sub.list, Head(srvs))), ttl, Tail(srvs))
+RECURSIVE QueueStopSubs(_, _)
+QueueStopSubs(s, srvs) ==
+  IF srvs = <<>> THEN s
+  ELSE QueueStopSubs(CallSoon(s, [kind |-> "sub_send", ttl |-> 0, srv |-> Head(srvs), gs |-> GroupOf(s.sub.list, Head(srvs))]), Tail(srvs))
+
+SubscribeEg(s, g, srv) ==
+  LET s1 == [s EXCEPT !.sub.list = Append(@, <<g, srv>>)]
+  IN IF s.sub.alive THEN CallSoon(s1, [kind |-> "sub_send", ttl |-> Cfg.subTTL, srv |-> srv, gs |-> <<g>>]) ELSE s1
+UnsubscribeEg(s, g, srv) ==
+  IF ~\E n \in DOMAIN s.sub.list : s.sub.list[n] = <<g, srv>> THEN s
+  ELSE LET n == CHOOSE n \in DOMAIN s.sub.list : s.sub.list[n] = <<g, srv>> /\ \A m \in 1..(n - 1) : s.sub.list[m] # <<g, srv>>
+           s1 == [s EXCEPT !.sub.list = SubSeq(@, 1, n - 1) \o SubSeq(@, n + 1, Len(@))]
+       IN IF Sw.StopSubNotDeferred THEN SendSubs(s1, 0, srv, <<g>>)
+          ELSE CallSoon(s1, [kind |-> "sub_send", ttl |-> 0, srv |-> srv, gs |-> <<g>>])
+SubStart(s) ==
+  IF s.sub.alive THEN s
+  ELSE LET tk == NewTaskId(s) IN
+       CallSoon([s EXCEPT !.sub.alive = TRUE, !.sub.task = tk,
+                          !.tasks = Put(@, tk, [st |-> "created", pc |-> 0, i |-> 0, must |-> FALSE, inst |-> "", kind |-> "sub"])],
+                [kind |-> "step", tk |-> tk])
+SubStop(s, sendStop) ==
+  IF ~s.sub.alive THEN s
+  ELSE LET s1 == [CancelTask(s, s.sub.task) EXCEPT !.sub.alive = FALSE, !.sub.task = 0]
+       IN IF sendStop THEN QueueStopSubs(s1, Servers(s1.sub.list)) ELSE s1
+\* _subscribe: (re)send everything, sleep the refresh interval; a cancellation just ends the loop
+SubStep(s, tk) ==
+  IF s.tasks[tk].must THEN TaskDone(s, tk)
+  ELSE LET s1 == SendAllSubs(s, Cfg.subTTL, Servers(s.sub.list))
+       IN IF Cfg.refresh = 0 THEN TaskDone(s1, tk) ELSE Sleep(s1, tk, Cfg.refresh, 0, 0)
+
+\* s.disc = [task]   ServiceDiscover.send_find_services: pc 0 initial wait, pc 1 round i
+Found(s, f) == \E k \in s.store["found"] : k[2] \in Match[f]
+FindEntries(s) == LET fs == SelectSeq(s.wkeys, LAMBDA f : Sw.FindIgnoresFound \/ ~Found(s, f)) IN [i \in DOMAIN fs |-> [ty |-> "find", svc |-> fs[i], ttl |-> Cfg.findTTL]]
+DiscStart(s) ==
+  IF s.disc.task # 0 /\ s.disc.task \in DOMAIN s.tasks THEN s
+  ELSE LET tk == NewTaskId(s) IN
+       CallSoon([s EXCEPT !.disc.task = tk,
+                          !.tasks = Put(@, tk, [st |-> "created", pc |-> 0, i |-> 0, must |-> FALSE, inst |-> "", kind |-> "find"])],
+                [kind |-> "step", tk |-> tk])
+DiscStop(s) == IF s.disc.task = 0 THEN s ELSE [CancelTask(s, s.disc.task) EXCEPT !.disc.task = 0]
+FindStep(s, tk) ==
+  LET t == s.tasks[tk] IN
+  IF t.must THEN TaskDone(s, tk)
+  ELSE IF t.pc = 0
+  THEN IF s.wkeys = <<>> THEN TaskDone(s, tk)
+       ELSE Sleep(RandObs(s, Cfg.initMin, Cfg.initMax), tk, Rand(s, Cfg.initMin, Cfg.initMax), 1, 0)
+  ELSE LET es == FindEntries(s) IN
+       IF es = <<>> THEN TaskDone(s, tk)
+       ELSE LET s1 == SendSD(s, "mc", es) IN
+            IF t.i < Cfg.reps THEN Sleep(s1, tk, Pow2(t.i) * Cfg.base, 1, t.i + 1) ELSE TaskDone(s1, tk)
+
+TaskStep(s, tk) ==
+  IF tk \notin DOMAIN s.tasks THEN s
+  ELSE CASE s.tasks[tk].kind = "offer" -> OfferStep(s, tk)
+         [] s.tasks[tk].kind = "sub"   -> SubStep(s, tk)
+         [] s.tasks[tk].kind = "find"  -> FindStep(s, tk)
+
+-----------------------------------------------------------------------------
 (* ----------------- ServiceDiscoveryProtocol: receive path ---------------- *)
 \* reboot_detected: subscriber (no-op), discovery, announcer -- each exactly once per detection.
 \* With Cfg.seeReboot the three calls are observable (the harness wraps the components).
@@ -413,6 +493,12 @@ Input(s, e) ==      \* an environment input, delivered as an I/O callback
     [] e.op = "announce"  -> Announce(s0, e.inst)
     [] e.op = "stop_announce" -> StopAnnounce(s0, e.inst)
     [] e.op = "queue"    -> QueueSend(s0, e.dst, e.en)       \* public queue_send (C15)
+    [] e.op = "sub_start" -> SubStart(s0)
+    [] e.op = "sub_stop"  -> SubStop(s0, TRUE)
+    [] e.op = "subscribe" -> SubscribeEg(s0, e.g, e.srv)
+    [] e.op = "unsubscribe" -> UnsubscribeEg(s0, e.g, e.srv)
+    [] e.op = "disc_start" -> DiscStart(s0)
+    [] e.op = "disc_stop"  -> DiscStop(s0)
     \* a bare TimedStore driven through its public methods (C09)
     [] e.op = "ts_refresh"  -> TSRefresh(s0, "ts", e.a, e.key, e.ttl)
     [] e.op = "ts_stop"     -> TSStop(s0, "ts", e.a, e.key)
@@ -431,12 +517,13 @@ Effect(s, c) ==
     [] c.kind = "reboot_ann"     -> RebootAnn(s, c.a)
     [] c.kind = "connlost_disc"  -> FoundStopAll(ClApplied(s, "disc"))
     [] c.kind = "cancelled"      -> s
-    [] c.kind = "step"           -> OfferStep(s, c.tk)
+    [] c.kind = "step"           -> TaskStep(s, c.tk)
+    [] c.kind = "sub_send"       -> SendSubs(s, c.ttl, c.srv, c.gs)
     [] c.kind = "wake"           -> Wake(s, c.tk)
     [] c.kind = "collect"        -> Collect(s, c.dst)
     [] c.kind = "answer"         -> AnswerFind(s, c.inst, c.dst)
     [] c.kind = "connlost_ann"   -> AnnStop(ClApplied(s, "ann"))
-    [] c.kind = "connlost_sub"   -> ClApplied(s, "sub")
+    [] c.kind = "connlost_sub"   -> SubStop(ClApplied(s, "sub"), FALSE)
 
 -----------------------------------------------------------------------------
 VARIABLE s
@@ -444,10 +531,11 @@ vars == <<s>>
 
 Init ==
   s = [ ready |-> <<>>, todo |-> 0, timers |-> {}, outs |-> <<>>, ev |-> 0, idle |-> 0,
-        sessIn |-> <<>>, sessOut |-> <<>>, peer |-> <<>>, watch |-> Cfg.watch0, wkeys |-> UNION Range(Cfg.watch0) \ {"ALL"},
+        sessIn |-> <<>>, sessOut |-> <<>>, peer |-> <<>>, watch |-> Cfg.watch0, wkeys |-> IF Cfg.wkeys0 # <<>> THEN Cfg.wkeys0 ELSE SetToSeq(UNION Range(Cfg.watch0) \ {"ALL"}),
         store |-> [found |-> {}, ts |-> {}] @@ [i \in DOMAIN Cfg.inst |-> {}],
         started |-> FALSE, ann |-> Cfg.ann0, inst |-> [i \in DOMAIN Cfg.inst |-> [task |-> 0, can |-> FALSE]],
-        tasks |-> <<>>, queues |-> <<>>, ch |-> 0 ]
+        tasks |-> <<>>, queues |-> <<>>, ch |-> 0,
+        sub |-> [alive |-> FALSE, task |-> 0, list |-> <<>>], disc |-> [task |-> 0] ]
 
 \* inputs applicable now (a listener registers under one filter at a time: DESIGN §9)
 Applicable(st, e) ==
@@ -457,6 +545,9 @@ Applicable(st, e) ==
     [] e.op = "ann_stop"  -> st.started \/ Cfg.stopTwice      \* (C10: stopping a stopped announcer must succeed)
     [] e.op = "announce"  -> ~\E n \in DOMAIN st.ann : st.ann[n] = e.inst
     [] e.op = "stop_announce" -> \E n \in DOMAIN st.ann : st.ann[n] = e.inst
+    \* (C14: no duplicate subscribes of one eventgroup to one server)
+    [] e.op = "subscribe" -> ~\E n \in DOMAIN st.sub.list : st.sub.list[n] = <<e.g, e.srv>>
+    [] e.op = "disc_start" -> st.disc.task = 0
     [] OTHER -> TRUE
 
 \* the part of the state that decides applicability, as it will be after input e has run
@@ -467,6 +558,10 @@ Flag(st, e) ==
     [] e.op = "stop_announce" -> [st EXCEPT !.ann = SelectSeq(@, LAMBDA x : x # e.inst)]
     [] e.op = "watch"     -> [st EXCEPT !.watch[e.lst] = @ \cup {e.flt}]
     [] e.op = "unwatch"   -> [st EXCEPT !.watch[e.lst] = @ \ {e.flt}]
+    [] e.op = "subscribe" -> [st EXCEPT !.sub.list = Append(@, <<e.g, e.srv>>)]
+    [] e.op = "unsubscribe" -> [st EXCEPT !.sub.list = SelectSeq(@, LAMBDA p : p # <<e.g, e.srv>>)]
+    [] e.op = "disc_start" -> [st EXCEPT !.disc.task = 1]
+    [] e.op = "disc_stop" -> [st EXCEPT !.disc.task = 0]
     [] OTHER -> st
 RECURSIVE AllApplicable(_, _)
 AllApplicable(st, ins) ==
